@@ -66,6 +66,7 @@ class C07(Check):
                     items.append(t)
                 for cfg in cfgs:
                     yield {'cfg': cfg, 'parent': 'top', 'parent_node': None, 'items': items}
+        self.box_done = 1
 
     def _random(self, rng, tier):
         k = 1500 if tier == 'quick' else 15000
@@ -125,6 +126,11 @@ class C07(Check):
                 return out
         out.observed['events_logged'] += len(ob.log)
         return out
+
+    box_done = 0
+
+    def extra_evidence(self):
+        return {'shards_that_enumerated_their_part_of_the_box_completely': self.box_done}
 
     def shrink(self, case):
         items = case['items']
